@@ -221,11 +221,28 @@ def run_impl(case):
     return {"steps": steps, "resets": resets, "distinct": distinct}
 
 
+def _rank_ok(x, d):
+    """x is a nested list of exactly d levels (what the model driver's parser expects)"""
+    if d == 0:
+        return not isinstance(x, list)
+    return isinstance(x, list) and all(_rank_ok(y, d - 1) for y in x)
+
+
+def _well_ranked(case, obs):
+    if case["kind"] == "prod":
+        return _rank_ok(obs["out"], case["rank"]) or obs["out"] == []
+    want = {"times": 1, "omega": 2, "border": 3, "ts": 1, "xs": 2, "dx": 3, "tx": 2, "tdx": 3}
+    return all(s.get(k) is None or _rank_ok(s[k], d) for s in obs["steps"] for k, d in want.items())
+
+
 def lean_request(case, obs):
     if case["kind"] == "guard":
         return {"op": "c14_guard", "cart": case["cart"], "dim": case["dim"], "bt": case["bt"], "b": case["b"],
                 "bb": case["bb"]}
     if "error" in obs:
+        return None
+    if not _well_ranked(case, obs):
+        obs["bad_rank"] = True
         return None
     if case["kind"] == "prod":
         return {"op": "c14_prod", "rank": case["rank"], "b1": obs["b1"], "b2": obs["b2"], "out": obs["out"]}
@@ -240,6 +257,8 @@ def judge(case, obs, a):
             return {"status": "disagree", "clause": "constructor-rejection-differs", "impl": obs["error"],
                     "model": a["error"]}
         return {"status": "ok", "clause": None}
+    if a is None and obs.get("bad_rank"):
+        return {"status": "violation", "clause": "array-rank-differs-from-the-declared-shape"}
     if a is None:  # the implementation raised on a well-formed case
         return {"status": "violation", "clause": "well-formed-request-raised:" + str(obs.get("error"))}
     if not a["holds"]:
